@@ -227,6 +227,10 @@ def kexinit(rng):
         languages.append(tags)
     follows = rng.random() < 0.5
     reserved = rng.choice([0, 0, 1, 2 ** 32 - 1])
+    given = {'cookie': bytearray(cookie), 'reserved': reserved}
+    if rng.random() < 0.35:
+        # as a sender builds it: the cookie is left to the class (16 random octets, RFC 4253 7.1), reserved to its default 0
+        given, reserved = {}, 0
     lib = sub.SshKeyExchangeInit(
         kex_algorithms=lists_lib[0], host_key_algorithms=lists_lib[1],
         encryption_algorithms_client_to_server=lists_lib[2], encryption_algorithms_server_to_client=lists_lib[3],
@@ -234,7 +238,11 @@ def kexinit(rng):
         compression_algorithms_client_to_server=lists_lib[6], compression_algorithms_server_to_client=lists_lib[7],
         languages_client_to_server=[LanguageTag(t.split('-')[0], t.split('-')[1:]) for t in languages[0]],
         languages_server_to_client=[LanguageTag(t.split('-')[0], t.split('-')[1:]) for t in languages[1]],
-        first_kex_packet_follows=1 if follows else 0, cookie=bytearray(cookie), reserved=reserved)
+        first_kex_packet_follows=1 if follows else 0, **given)
+    if not given:
+        cookie = bytes(lib.cookie)
+        if len(cookie) != 16:
+            raise ValueError('the cookie the class chose has %d octets instead of 16' % len(cookie))
     wire = ref.kexinit(cookie, lists + languages, follows, reserved)
     extra = {'hassh': ref.hassh(lists[0], lists[2], lists[4], lists[6]),
              'hassh_server': ref.hassh(lists[0], lists[3], lists[5], lists[7])}
